@@ -130,7 +130,7 @@ PROPS = {
     "C13": dict(
         vfiles=["Props/C13"],
         technique="Coq proof: schedule insensitivity of the USART automaton (would-block tokens anywhere change only the number of 'nothing received' results), gap lemmas for CAN / serial port, frames-on-the-wire lemma composed with the reassembly theorem for packet sequences, bridge to the harness loop; correspondence through the real sender and receiver under gap patterns",
-        level_text="Theorems C13_usart (every schedule inserting 'no data yet' between any two bytes), C13_serial, C13_can (between link frames), C13_serial_interrupted (additionally EINTR at any point, inside frames too): the polls return exactly the packets sent, in order, "
+        level_text="Theorems C13_usart (every schedule inserting 'no data yet' between any two bytes), C13_serial, C13_can (between link frames), C13_serial_interrupted (additionally EINTR at any point, inside frames too), C13_serial_other_failure and C13_can_overrun (the other 'no data yet' answers: a read failing with another io error, an overrun report): the polls return exactly the packets sent, in order, "
                    "otherwise only 'nothing received', and the receiver ends empty; C13_sender_wire ties the wire image to the senders' encoders; C13_polls_run relates the harness loop to the automaton.",
         level_note=NOTE_COMMON,
         streams=[dict(LNK, view="view_C13", ok="ok_C13")],
